@@ -144,7 +144,16 @@ def rule_once(ctx):
     rets = {}
     for d in rk.ret_defs():
         if d[0] == 'assign':
-            rets[canon(rk.rvalue_expr(d[3]))] = util.guards_at(rk, d[1])
+            rv = d[3]
+            alts = None
+            if rv.get('k') == 'aggr' and rv.get('variant') == 'Ok' and len(rv.get('ops', [])) == 1:
+                # `Ok(key)` where key was chosen earlier: one alternative per definition of key
+                alts = util.value_alternatives(rk, rv['ops'][0])
+            if alts and len(alts) > 1:
+                for e, bb in alts:
+                    rets['Result::Ok{0: %s}' % canon(e)] = util.guards_at(rk, bb)
+            else:
+                rets[canon(rk.rvalue_expr(rv))] = util.guards_at(rk, d[1])
     buf = 'from_elem(0, (len(metadata(a1)?) as usize))'
     ctx.check('once', 'key=whole-file', 'Result::Ok{0: Option::Some{0: %s}}' % buf in rets, rk, 'key buffer sized metadata.len()')
     rx = [c for c in rk.calls if mir.method_name(c.name) == 'read_exact']
